@@ -390,6 +390,60 @@ def signature(tr, matched):
     return f"C12/cached_property/{what}-rejected{ctx}" + ("+lock" if tr["cfg"]["lock"] else "+nolock")
 
 
+def other_forms(L):
+    """Two ways of attaching the descriptor that functools refuses: after the class was created (no __set_name__), and
+    under two names.  Refusing them is fine; a library that accepts them owes the same behaviour there: the getter runs
+    once per instance until the attribute is deleted, whichever name is used."""
+    out = []
+    runs = {"n": 0}
+
+    async def getter(self):
+        runs["n"] += 1
+        return ("val", runs["n"])
+
+    def go(aw):
+        r = Task(aw, Accounting()).run()
+        return r
+
+    # (1) attached after the class exists
+    class Late:
+        pass
+
+    try:
+        Late.value = L.cached_property(getter)
+        inst = Late()
+        r1 = go(_await(lambda: inst.value))
+        accepted = r1[0] == "done"
+    except TypeError:
+        accepted = False
+    if accepted:
+        r2 = go(_await(lambda: inst.value))
+        if runs["n"] != 1 or r2 != r1:
+            out.append(("C12/cached_property/getter-reran+attached-after-class-creation",
+                        {"engine": "scenario", "expected": "one getter run, the same value twice", "observed": {"runs": runs["n"], "first": repr(r1), "second": repr(r2)}}))
+    # (2) one descriptor under two names
+    runs["n"] = 0
+    try:
+        desc = L.cached_property(getter)
+        Two = type("Two", (), {"x": desc, "y": desc})
+        inst = Two()
+        r1 = go(_await(lambda: inst.x))
+        accepted = r1[0] == "done"
+    except (TypeError, RuntimeError):
+        accepted = False
+    if accepted:
+        r2 = go(_await(lambda: inst.y))
+        r3 = go(_await(lambda: inst.x))
+        if runs["n"] != 1 or not (r1 == r2 == r3):
+            out.append(("C12/cached_property/getter-reran+one-descriptor-two-names",
+                        {"engine": "scenario", "expected": "one getter run, one value", "observed": {"runs": runs["n"], "values": [repr(r1), repr(r2), repr(r3)]}}))
+    return out
+
+
+async def _await(take):
+    return await take()
+
+
 def check(prop, tier, seed, into=None):
     v = into or Verdict(prop, tier, seed)
     label_counts = {}
@@ -432,6 +486,8 @@ def check(prop, tier, seed, into=None):
                      "step": matched, "matched_prefix": tr["ev"][max(0, matched - 6): matched],
                      "rejected_event": tr["ev"][matched] if matched < len(tr["ev"]) else None, "drift": tr.get("drift")})
     benign = sum(1 for i, t in enumerate(alltraces) if t.get("drift") and i not in rejected)
+    for sig, d in other_forms(tm.load_lib()):
+        v.violation(sig, d)
     for t in alltraces[:2] + rres[:2]:
         v.sample({"cfg": t["cfg"], "path": t["path"][:12], "events": t["ev"][:8]})
     v.assumptions += ["the lock type is the instrumented lock of the harness (one instance per placeholder, waiters resume only when it is free; with ExitSusp its release suspends once)",
